@@ -1256,3 +1256,88 @@ def rule_any_keeps_handlers(model: Model, rule_id: str = 'C18-R10') -> RuleResul
         else:
             r.fail(own.qualname, 'the writer never looks at its handlers', own.loc(), "custom converters are ignored for Any-typed members on output")
     return r
+
+
+# ---------------------------------------------------------------------------- C11: the member that writes a union value owns the value
+
+
+def rule_union_writer_selection(model: Model, rule_id: str = 'C11-R9') -> RuleResult:
+    """The writer of a union is given a *typed* value; which member writes it must be decided by what the value is (its class), not by
+    asking each member whether it would accept the value as *input data*: a member's reader accepts far more than its own instances
+    (a str is valid data for Pattern, a mapping for a dataclass), and the member's writer then meets a value it was never built for."""
+    r = RuleResult(rule_id, "a union's writer does not pick the member by probing the members' readers with the typed value", floor=1)
+    f = model.func('pane.converters.UnionConverter.into_data')
+    cfg = cfg_of(model, f)
+    nz = Normalizer(model, f, cfg)
+    r.analysed.add(f.qualname)
+    probes = []
+    for n in cfg.live_nodes():
+        for root in node_exprs(n):
+            for c in walk_no_nested(root):
+                if isinstance(c, ast.Call) and isinstance(c.func, ast.Attribute) and c.func.attr in ('try_convert', 'convert', 'collect_errors') \
+                        and c.args and nz.expr(c.args[0], n) == 'VAL':
+                    probes.append((n, c))
+    r.instances += 1
+    r.sample({'reader probes on the typed value': [unparse(c) for _n, c in probes]})
+    if probes:
+        n, c = probes[0]
+        r.fail('pane.converters.UnionConverter.into_data', "member chosen by try_convert of the typed value", f.loc(c),
+               "the first member whose *reader* accepts the typed value writes it: into_data('abc', Union[re.Pattern, str]) and "
+               "into_data({'x': 1}, Union[P, Dict[str, int]]) (P a dataclass) pick the Pattern / dataclass member and raise AssertionError "
+               "out of into_data, although the str / Dict member accepts the value")
+    else:
+        r.ok()
+    return r
+
+
+# ---------------------------------------------------------------------------- C16: "explicit __hash__" is judged on the class as written
+
+
+def rule_explicit_hash_before_eq(model: Model, rule_id: str = 'C16-R8') -> RuleResult:
+    """The standard-library rule table distinguishes a ``__hash__`` written by the user from the ``__hash__ = None`` Python adds when
+    the class body defines ``__eq__``.  That test looks for ``__eq__`` in the class dictionary, so it has to run before the generated
+    ``__eq__`` is attached: afterwards every ``__hash__ = None`` looks implicit."""
+    r = RuleResult(rule_id, 'the hash rule is applied before the generated __eq__ is attached to the class', floor=1)
+    f = model.func('pane.classes._process')
+    cfg = cfg_of(model, f)
+    r.analysed.add(f.qualname)
+    eqs, hashes = [], []
+    for n in cfg.live_nodes():
+        for root in node_exprs(n):
+            for c in walk_no_nested(root):
+                if isinstance(c, ast.Call):
+                    q = (model.resolve(c.func, f.module, f) or '').rsplit('.', 1)[-1]
+                    if q == '_make_eq':
+                        eqs.append(n)
+                    elif q == '_maybe_make_hash':
+                        hashes.append(n)
+    hm = model.func('pane.classes._maybe_make_hash')
+    looks_at_eq = any(isinstance(x, ast.Constant) and x.value == '__eq__' for x in ast.walk(hm.node))
+    if not hashes:
+        raise AnalysisError(f"{f.loc()}: _process no longer calls _maybe_make_hash")
+    r.instances += 1
+    r.sample({'hash rule consults __eq__ in the class dict': looks_at_eq, 'eq generators': len(eqs)})
+    if not looks_at_eq:
+        r.ok()
+        return r
+
+    def reaches(a: Node, b: Node) -> bool:
+        seen_, todo_ = set(), [m for (_lb, m) in a.succ]
+        while todo_:
+            x = todo_.pop()
+            if x.id in seen_:
+                continue
+            seen_.add(x.id)
+            if x is b:
+                return True
+            todo_.extend(m for (_lb, m) in x.succ)
+        return False
+    bad = [(e, h) for e in eqs for h in hashes if reaches(e, h)]
+    if bad:
+        r.fail(f.qualname, '_maybe_make_hash runs after _make_eq', f.loc(bad[0][1].ast),
+               "with the generated __eq__ already in the class dictionary a user's `__hash__ = None` is taken for the implicit one: "
+               "class A(PaneBase): x: int; __hash__ = None is hashable (the standard library leaves it unhashable) and "
+               "unsafe_hash=True silently overwrites it (the standard library raises TypeError)")
+    else:
+        r.ok()
+    return r
